@@ -30,7 +30,7 @@ COMMON_ASSUME = [
 PROPS = {}
 
 PROPS["C01"] = {
-    "legs": [rapid("hist", "pstree", "TestC01Hist", 8, 4000, 16, 40000)],
+    "legs": [rapid("hist", "pstree", "TestC01Hist", 8, 4000, 16, 300000)],
     "rule": "rapid draws a history as data (beta in {0,1,50,250,500,999,1000} or uniform 0..1000; unsorted, duplicated "
             "initial keys for New; <=60 ops among Add/Replace/Remove/Get/Clear/Clone/switch/Inorder(stop)/InorderAfter "
             "(present, absent, below min, above max) plus macro ops: ascending/descending/zig-zag runs, drains "
@@ -59,7 +59,7 @@ PROPS["C02"] = {
 }
 
 PROPS["C03"] = {
-    "legs": [rapid("cursor", "pstree", "TestC03Cursor", 4, 600, 16, 6000)],
+    "legs": [rapid("cursor", "pstree", "TestC03Cursor", 4, 1000, 16, 40000)],
     "rule": "a tree is built by a C01-style history (beta biased to 500/900/1000 so that skewed shapes occur; runs and "
             "adversarial deep inserts), then: (a) Cursor(key) for every key and for absent keys below/above/inside the "
             "range; (b) a structural recursion from Root using only Clone/Left/Right that reconstructs the shape and "
@@ -75,7 +75,7 @@ PROPS["C03"] = {
 }
 
 PROPS["C04"] = {
-    "legs": [rapid("hist", "pstree", "TestC04Hist", 4, 2500, 16, 25000)],
+    "legs": [rapid("hist", "pstree", "TestC04Hist", 4, 4000, 16, 250000)],
     "rule": "histories of <=50(+9) ops on two copies of one omap.Map value (ops alternate between the copies): "
             "Set/Delete/Clear/Get/GetOK on present, absent-below, absent-above and absent-inside keys; iterator "
             "programmes First/Last/Seek(k)/Iter.Seek(k) followed by Next/Prev walks, the documented "
@@ -96,8 +96,8 @@ HEAP_TRIAGE = ("Known findings F1 (sift-up through slot i/2) and F2 (no sift-up 
                "queue's array order after every operation; every other clause is strict always.")
 
 PROPS["C05"] = {
-    "legs": [rapid("hist", "pheap", "TestC05Hist", 4, 4000, 16, 40000),
-             rapid("sort", "pheap", "TestC05Sort", 1, 3000, 4, 30000),
+    "legs": [rapid("hist", "pheap", "TestC05Hist", 4, 5000, 16, 300000),
+             rapid("sort", "pheap", "TestC05Sort", 1, 3000, 4, 300000),
              plain("sortx", "pheap", "TestC05SortExhaustive", solo=True)],
     "rule": "leg hist: constructor New or NewWithData (arbitrary data, spare capacity), both comparison directions, "
             "<=60(+20) ops among Add, Pop, Front, Peek(i) incl. out of range and negative (must panic), Remove(i) "
@@ -115,7 +115,7 @@ PROPS["C05"] = {
 }
 
 PROPS["C06"] = {
-    "legs": [rapid("pos", "pheap", "TestC06Pos", 4, 4000, 16, 40000)],
+    "legs": [rapid("pos", "pheap", "TestC06Pos", 4, 5000, 16, 300000)],
     "rule": "histories as C05 (mode G) with an update callback installed that records the last reported position per "
             "element id; extra ops: removeElem (Remove at the recorded position of a chosen tracked element must return "
             "exactly that element), Update(nil)/re-install phases (after removal of the callback no call may arrive; "
@@ -153,10 +153,10 @@ PROPS["C07"] = {
 }
 
 PROPS["C10"] = {
-    "legs": [rapid("stack", "pseq", "TestC10Stack", 4, 2000, 16, 20000),
-             rapid("mqueue", "pseq", "TestC10MQueue", 4, 2000, 16, 20000),
-             rapid("list", "pseq", "TestC10List", 4, 2000, 16, 20000),
-             rapid("ring", "pseq", "TestC10Ring", 4, 2000, 16, 20000)],
+    "legs": [rapid("stack", "pseq", "TestC10Stack", 4, 2000, 16, 150000),
+             rapid("mqueue", "pseq", "TestC10MQueue", 4, 2000, 16, 150000),
+             rapid("list", "pseq", "TestC10List", 4, 2000, 16, 150000),
+             rapid("ring", "pseq", "TestC10Ring", 4, 2000, 16, 150000)],
     "rule": "Four rapid legs, each drawing a history as data and comparing with a reference after EVERY step. "
             "stack / mqueue: zero value or constructor; Push/Add/Pop/Top/Front/Peek(n in and out of range; n<0 must panic)/"
             "Each(stop after j)/Len/IsEmpty/Clear/Slice and runs, against a reference slice (Each/Slice of the stack newest "
@@ -193,7 +193,7 @@ PROPS["C10"] = {
 }
 
 PROPS["C08"] = {
-    "legs": [rapid("hist", "pcache", "TestC08Hist", 4, 4000, 16, 60000)],
+    "legs": [rapid("hist", "pcache", "TestC08Hist", 4, 6000, 16, 500000)],
     "rule": "limit in 1..12 (biased to >=6); size function absent (unit) or value-dependent (0..4, sometimes exactly the "
             "limit or above it); keys in 0..limit+3 so that evictions happen; unique values; <=60(+limit+6) ops among Put, "
             "putNew (Put of a key that is absent), Get, Has, Remove, Clear, with a spliced fill / touch-a-middle-aged-key / "
@@ -214,7 +214,7 @@ PROPS["C08"] = {
 PROPS["C09"] = {
     "legs": [plain("conc", "pcache", "TestC09Conc", race=True,
                    shards={"quick": 4, "thorough": 16},
-                   env={"quick": {"VK_C09_WORKLOADS": "400"}, "thorough": {"VK_C09_WORKLOADS": "6000"}})],
+                   env={"quick": {"VK_C09_WORKLOADS": "400"}, "thorough": {"VK_C09_WORKLOADS": "20000"}})],
     "rule": "workloads are drawn as data by a rapid generator (Example seeds derived from VERIF_SEED and the shard): 2-4 "
             "goroutines x 4-12 calls of Has/Get/Put/Remove/Len/Size/Clear over keys 0..3, unique values of size 1-3, "
             "limit 3-5 (at most 5 entries, so known finding F2 cannot be exposed and the sequential specification is the "
@@ -241,7 +241,7 @@ PROPS["C09"] = {
 
 PROPS["C13"] = {
     "legs": [plain("exh", "pmdiff", "TestC13Exhaustive", solo=True),
-             rapid("rand", "pmdiff", "TestC13Rand", 4, 3000, 16, 30000)],
+             rapid("rand", "pmdiff", "TestC13Rand", 4, 3000, 16, 200000)],
     "rule": "leg exh: every pair (Left, Right) of line sequences over {a,b,c} with both lengths <=5 (quick) / <=6 "
             "(thorough), each with every context size n in {0,1,2,3,4,50}; leg rand: pairs of up to ~45 lines derived from "
             "a common base by per-line delete/replace/insert mutations over alphabets of 2-5 lines (so lines repeat), n "
@@ -391,8 +391,8 @@ PROPS["C20"] = {
 
 PROPS["C14"] = {
     "legs": [plain("exh", "pmdiff", "TestC14Exhaustive", solo=True),
-             rapid("rand", "pmdiff", "TestC14Rand", 4, 2500, 16, 25000),
-             rapid("git", "pmdiff", "TestC14Git", 2, 1500, 8, 15000),
+             rapid("rand", "pmdiff", "TestC14Rand", 4, 2500, 16, 100000),
+             rapid("git", "pmdiff", "TestC14Git", 2, 1500, 8, 60000),
              plain("gnupatch", "pmdiff", "TestC14GnuPatch", shards={"quick": 1, "thorough": 4}),
              fuzz("fuzz", "pmdiff", "FuzzUnifiedRoundTrip", 90)],
     "rule": "diffs are New(L,R) (n=-1) or New(L,R).AddContext(n).Unify() (n in 0..3). leg exh: every pair over {a,b,c} "
@@ -422,7 +422,7 @@ PROPS["C14"] = {
 
 PROPS["C15"] = {
     "legs": [plain("exh", "pshell", "TestC15Exhaustive", solo=True),
-             rapid("lists", "pshell", "TestC15Lists", 4, 3000, 16, 30000),
+             rapid("lists", "pshell", "TestC15Lists", 4, 3000, 16, 200000),
              plain("pool", "pshell", "TestC15Pool"),
              plain("shells", "pshell", "TestC15Shells", solo=True),
              fuzz("fuzz", "pshell", "FuzzQuoteSplit", 60)],
@@ -445,7 +445,7 @@ PROPS["C15"] = {
 
 PROPS["C16"] = {
     "legs": [plain("exh", "pshell", "TestC16Exhaustive", solo=True),
-             rapid("rand", "pshell", "TestC16Rand", 4, 2500, 16, 25000),
+             rapid("rand", "pshell", "TestC16Rand", 4, 2500, 16, 100000),
              plain("shells", "pshell", "TestC16Shells", solo=True),
              fuzz("fuzz", "pshell", "FuzzSplit", 60)],
     "rule": "leg exh: every string of length <=6 (quick) / <=7 (thorough) over one representative per tokenizer class "
